@@ -2,6 +2,7 @@ package main
 
 import (
 	"encoding/json"
+	"os/exec"
 	"flag"
 	"fmt"
 	"go/token"
@@ -20,7 +21,13 @@ import (
 	"golang.org/x/tools/go/ssa/ssautil"
 )
 
-const repoDir = "/repo"
+// repoDir is /repo; the thorough tier's self-test re-runs the engine on scratch copies (P9VC_REPO).
+var repoDir = func() string {
+	if d := os.Getenv("P9VC_REPO"); d != "" {
+		return d
+	}
+	return "/repo"
+}()
 const verifDir = "/verif"
 
 func newEngine() (*Engine, error) {
@@ -282,7 +289,7 @@ func (e *Engine) checkProperty(id, tier string, seed int, only string) int {
 	if t := os.Getenv("P9VC_TIMEOUT"); t != "" {
 		timeout, _ = strconv.Atoi(t)
 	}
-	outDir := filepath.Join(verifDir, "out", id)
+	outDir := filepath.Join(outBase(), id)
 	os.RemoveAll(outDir)
 	var pending []*Obligation
 	for _, o := range obls {
@@ -441,9 +448,11 @@ func (e *Engine) checkProperty(id, tier string, seed int, only string) int {
 	}
 	ev := Evidence{PropertyID: id, Tier: tier, Seed: seed, Level: level, Coverage: cov, WallS: round3(time.Since(start).Seconds()), Violations: violations,
 		Assumptions: trusted}
-	os.MkdirAll(filepath.Join(verifDir, "evidence"), 0755)
-	data, _ := json.MarshalIndent(ev, "", " ")
-	os.WriteFile(filepath.Join(verifDir, "evidence", id+".json"), data, 0644)
+	if os.Getenv("P9VC_NOEVIDENCE") == "" {
+		os.MkdirAll(filepath.Join(verifDir, "evidence"), 0755)
+		data, _ := json.MarshalIndent(ev, "", " ")
+		os.WriteFile(filepath.Join(verifDir, "evidence", id+".json"), data, 0644)
+	}
 	fmt.Printf("property %s: %d/%d obligation sites discharged (%d instances, %d functions, %d return paths), %d known findings, %d violations, %.1fs\n",
 		id, okSites, nSites, len(obls), len(reps), totalPaths, len(seenK), violations, time.Since(start).Seconds())
 	// vacuity / expected obligations
@@ -491,7 +500,7 @@ func (e *Engine) levelFor(id string) string {
 var propLevels = map[string]string{}
 
 func (e *Engine) writeReplay(id string, o *Obligation, nfailed, total int) string {
-	dir := filepath.Join(verifDir, "out", "replay")
+	dir := filepath.Join(outBase(), "replay")
 	os.MkdirAll(dir, 0755)
 	p := filepath.Join(dir, id+"_"+sanitize(o.Name)+".json")
 	r := map[string]interface{}{
@@ -580,7 +589,11 @@ func main() {
 	e.tier = *tier
 	switch cmd {
 	case "check":
-		os.Exit(e.checkProperty(pos[0], *tier, seed, *only))
+		rc := e.checkProperty(pos[0], *tier, seed, *only)
+		if rc == 0 && *tier == "thorough" && os.Getenv("P9VC_REPO") == "" {
+			rc = runCanaries(pos[0])
+		}
+		os.Exit(rc)
 	case "func":
 		rep := e.verifyFunc(pos[0])
 		os.RemoveAll(filepath.Join(verifDir, "out", "func"))
@@ -660,3 +673,86 @@ func main() {
 }
 
 var _ = types.Universe
+
+// runCanaries (thorough tier): every confirmed seeded change recorded for this property is applied to a scratch copy
+// of /repo (outside /repo and /verif, removed afterwards) and the quick check is re-run on the copy; it must report a
+// violation there. A canary that is not detected means the machinery has lost strength: exit 2 (machinery fault).
+func runCanaries(id string) int {
+	dirs, _ := filepath.Glob(filepath.Join(verifDir, "seeded", "*"))
+	sort.Strings(dirs)
+	missed, ran := 0, 0
+	for _, d := range dirs {
+		data, err := os.ReadFile(filepath.Join(d, "meta.json"))
+		if err != nil {
+			continue
+		}
+		var meta struct {
+			Property string `json:"property"`
+			Name     string `json:"name"`
+			Expected *bool  `json:"expected_detected"`
+		}
+		if json.Unmarshal(data, &meta) != nil || meta.Property != id {
+			continue
+		}
+		scratch, err := os.MkdirTemp("", "p9vc_canary_")
+		if err != nil {
+			continue
+		}
+		cp := exec.Command("bash", "-c", fmt.Sprintf("cp -a /repo/. %s/ && cd %s && rm -rf .git && git init -q . >/dev/null 2>&1; patch -p1 -s < %s/patch.diff", scratch, scratch, d))
+		if out, err := cp.CombinedOutput(); err != nil {
+			fmt.Printf("CANARY %s: patch does not apply to the current tree, skipped (%s)\n", meta.Name, strings.TrimSpace(firstLines(string(out), 1)))
+			os.RemoveAll(scratch)
+			continue
+		}
+		cmd := exec.Command(os.Args[0], "check", id, "--tier", "quick")
+		cmd.Env = append(os.Environ(), "P9VC_REPO="+scratch, "P9VC_NOEVIDENCE=1")
+		out, _ := cmd.CombinedOutput()
+		os.RemoveAll(scratch)
+		ran++
+		detected := ""
+		for _, ln := range strings.Split(string(out), "\n") {
+			if strings.HasPrefix(ln, "VIOLATION") {
+				if i := strings.Index(ln, "obligation="); i >= 0 {
+					detected = strings.Fields(ln[i+11:])[0]
+				}
+				break
+			}
+		}
+		switch {
+		case detected != "":
+			fmt.Printf("CANARY %s: detected by %s\n", meta.Name, detected)
+		case meta.Expected != nil && !*meta.Expected:
+			fmt.Printf("CANARY %s: not detected (recorded as out of reach, see DESIGN.md)\n", meta.Name)
+		default:
+			fmt.Printf("CANARY %s: NOT DETECTED - the check has lost strength\n", meta.Name)
+			missed++
+		}
+	}
+	fmt.Printf("self-test: %d canaries run, %d missed\n", ran, missed)
+	// record the self-test in the evidence file written by the main run
+	evp := filepath.Join(verifDir, "evidence", id+".json")
+	if data, err := os.ReadFile(evp); err == nil {
+		var ev map[string]interface{}
+		if json.Unmarshal(data, &ev) == nil {
+			if cov, ok := ev["coverage"].(map[string]interface{}); ok {
+				cov["selftest_canaries_run"] = ran
+				cov["selftest_canaries_missed"] = missed
+				cov["selftest_rule"] = "each confirmed seeded change for this property (seeded/*/patch.diff) applied to a scratch copy of /repo must make the quick check report a violation"
+			}
+			if out, err := json.MarshalIndent(ev, "", " "); err == nil {
+				os.WriteFile(evp, out, 0644)
+			}
+		}
+	}
+	if missed > 0 {
+		return 2
+	}
+	return 0
+}
+
+func outBase() string {
+	if os.Getenv("P9VC_REPO") != "" {
+		return filepath.Join(verifDir, "out", "canary")
+	}
+	return filepath.Join(verifDir, "out")
+}
